@@ -143,15 +143,15 @@ func c23Servers() []quicServerKind {
 
 // injections
 const (
-	qiNone = iota
-	qiCancelThread   // a concurrent thread cancels the Start context at any point
-	qiNoServerName   // ClientHello cannot be built: parrot id (no explicit ApplyPreset), no ServerName, verification on
-	qiDupExtension   // ClientHello cannot be built: duplicate padding extension in the spec
-	qiMinVersion12   // Start refuses: the spec allows TLS 1.2
-	qiPreCancelled   // the context is cancelled before Start
-	qiNoCommonALPN   // server aborts: no application protocol in common
-	qiUntrustedCert  // client aborts: server certificate from an unknown CA
-	qiServerGarbage  // the first server flight is corrupted (handshake type 0xff)
+	qiNone          = iota
+	qiCancelThread  // a concurrent thread cancels the Start context at any point
+	qiNoServerName  // ClientHello cannot be built: parrot id (no explicit ApplyPreset), no ServerName, verification on
+	qiDupExtension  // ClientHello cannot be built: duplicate padding extension in the spec
+	qiMinVersion12  // Start refuses: the spec allows TLS 1.2
+	qiPreCancelled  // the context is cancelled before Start
+	qiNoCommonALPN  // server aborts: no application protocol in common
+	qiUntrustedCert // client aborts: server certificate from an unknown CA
+	qiServerGarbage // the first server flight is corrupted (handshake type 0xff)
 	qiCount
 )
 
@@ -181,7 +181,7 @@ func c23Pump(bound int, free bool) *explore.Scenario {
 	return &explore.Scenario{
 		Name:   "quic-event-pump",
 		Dedup:  !free,
-		Budget: map[string]int{"preempt": bound, "switch": bound, "select": bound, "frag": bound, "close": one, "late": one},
+		Budget: map[string]int{"preempt": bound, "switch": bound, "select": bound, "frag": bound, "pump": bound, "close": one, "late": one},
 		Run: func(x *explore.X) (r explore.Result) {
 			sp := specs[x.Choose("spec", len(specs))]
 			sv := servers[x.Choose("server", len(servers))]
@@ -261,25 +261,8 @@ func c23Pump(bound int, free bool) *explore.Scenario {
 					firstErr = err
 				}
 			}
-			drainClient := func() {
-				for {
-					e := q.NextEvent()
-					if e.Kind == tls.QUICNoEvent {
-						return
-					}
-					ev := qEvent{kind: e.Kind, level: e.Level, data: append([]byte(nil), e.Data...), suite: e.Suite}
-					cev = append(cev, ev)
-					switch e.Kind {
-					case tls.QUICWriteData:
-						cdata[e.Level] = append(cdata[e.Level], ev.data...)
-						cliWrites[e.Level] = append(cliWrites[e.Level], ev.data...)
-					case tls.QUICHandshakeDone:
-						clientDone = true
-					case tls.QUICTransportParametersRequired:
-						q.SetTransportParameters(c23Params(0).Marshal())
-					}
-				}
-			}
+			cLevels := []tls.QUICEncryptionLevel{tls.QUICEncryptionLevelInitial, tls.QUICEncryptionLevelHandshake, tls.QUICEncryptionLevelApplication}
+			sLevels := []stdtls.QUICEncryptionLevel{stdtls.QUICEncryptionLevelInitial, stdtls.QUICEncryptionLevelHandshake, stdtls.QUICEncryptionLevelApplication}
 			drainServer := func() {
 				for {
 					e := srv.NextEvent()
@@ -296,8 +279,49 @@ func c23Pump(bound int, free bool) *explore.Scenario {
 					}
 				}
 			}
-			cLevels := []tls.QUICEncryptionLevel{tls.QUICEncryptionLevelInitial, tls.QUICEncryptionLevelHandshake, tls.QUICEncryptionLevelApplication}
-			sLevels := []stdtls.QUICEncryptionLevel{stdtls.QUICEncryptionLevelInitial, stdtls.QUICEncryptionLevelHandshake, stdtls.QUICEncryptionLevelApplication}
+			drainClient := func() {
+				for {
+					e := q.NextEvent()
+					if e.Kind == tls.QUICNoEvent {
+						return
+					}
+					ev := qEvent{kind: e.Kind, level: e.Level, data: append([]byte(nil), e.Data...), suite: e.Suite}
+					cev = append(cev, ev)
+					switch e.Kind {
+					case tls.QUICWriteData:
+						cliWrites[e.Level] = append(cliWrites[e.Level], ev.data...)
+						if startRet && !closed && srvErr == nil && x.Choose("pump.reactive", 2) == 1 {
+							// a reactive transport: forward this chunk at once and feed the peer's answer
+							// back BEFORE asking for further events (the event queue is not drained first)
+							calls = append(calls, "reactive")
+							if err := srv.HandleData(stdtls.QUICEncryptionLevel(e.Level), ev.data); err != nil {
+								srvErr = err
+							}
+							drainServer()
+							for li, l := range sLevels {
+								if d := sdata[l]; len(d) > 0 {
+									sdata[l] = nil
+									if inj == qiServerGarbage && !garbled {
+										garbled = true
+										d = append([]byte{0xff}, d[1:]...)
+									}
+									err := q.HandleData(cLevels[li], d)
+									note("HandleData", err)
+									if err != nil {
+										break
+									}
+								}
+							}
+						} else {
+							cdata[e.Level] = append(cdata[e.Level], ev.data...)
+						}
+					case tls.QUICHandshakeDone:
+						clientDone = true
+					case tls.QUICTransportParametersRequired:
+						q.SetTransportParameters(c23Params(0).Marshal())
+					}
+				}
+			}
 
 			pump := func() {
 				defer func() { pumpFinished = true }()
@@ -615,7 +639,7 @@ func init() {
 	register(&Prop{ID: "C23", Level: "model_checking", Variant: "B", Scenarios: c23Scenarios, Sharded: true,
 		RaceScenarios: func(thorough bool) []*explore.Scenario { return []*explore.Scenario{c23Pump(0, true)} },
 		Run: func(c *explore.Check, thorough bool) {
-			c.Rule = "real UQUICConn (3 TLS 1.3-only custom specs with quic_transport_parameters) x standard-library QUIC server {default, HelloRetryRequest-forcing, requesting a client certificate} x injections {none, concurrent cancel thread, no ServerName, duplicate extension, MinVersion 1.2, pre-cancelled context, no common ALPN, untrusted certificate, corrupted server flight}, driven by a pump thread under the controlled scheduler (go/chan/select/mutex of package tls redirected): all schedules with <= 2 (4) preemptions/free switches/select alternatives x all fragmentations of server flights {whole, 1|rest, half|half, rest|1} with <= 2 (4) deviations x an optional early Close in any round x an optional SetTransportParameters call after Start in any round. Oracle: every Start/HandleData/Close returns (scheduler deadlock detection), no panic; client CRYPTO data is handshake-framed, ClientHello only at Initial with empty legacy_session_id and quic_transport_parameters; per level write secret before read secret, each once; 1-RTT read secret after HandshakeDone; peer transport parameters exactly once and byte-equal; without injection both sides complete with equal state and pairwise equal secrets (HRR followed with exactly 2 hellos); with a failure injected an error is reported and Start fails on unbuildable hellos. distinct = outcome class"
+			c.Rule = "real UQUICConn (3 TLS 1.3-only custom specs with quic_transport_parameters) x standard-library QUIC server {default, HelloRetryRequest-forcing, requesting a client certificate} x injections {none, concurrent cancel thread, no ServerName, duplicate extension, MinVersion 1.2, pre-cancelled context, no common ALPN, untrusted certificate, corrupted server flight}, driven by a pump thread under the controlled scheduler (go/chan/select/mutex of package tls redirected): all schedules with <= 2 (4) preemptions/free switches/select alternatives x all fragmentations of server flights {whole, 1|rest, half|half, rest|1} with <= 2 (4) deviations x a reactive pump step (forward a CRYPTO chunk and feed the answer back before draining further events) at any WriteData event x an optional early Close in any round x an optional SetTransportParameters call after Start in any round. Oracle: every Start/HandleData/Close returns (scheduler deadlock detection), no panic; client CRYPTO data is handshake-framed, ClientHello only at Initial with empty legacy_session_id and quic_transport_parameters; per level write secret before read secret, each once; 1-RTT read secret after HandshakeDone; peer transport parameters exactly once and byte-equal; without injection both sides complete with equal state and pairwise equal secrets (HRR followed with exactly 2 hellos); with a failure injected an error is reported and Start fails on unbuildable hellos. distinct = outcome class"
 			c.Assumptions = []string{"the standard-library QUIC server is the environment and adds no scheduling points", "UQUICConn methods are called from one thread (documented as not concurrency-safe); only context cancellation is concurrent", "bounded: <= k deviations per class"}
 			runAll(c, c23Scenarios(thorough), 0)
 			attachRacePass(c)
